@@ -70,6 +70,8 @@ def values_for(ast, tier) -> t.List[t.Any]:
         step = len(near) / cap
         near = [near[int(i * step)] for i in range(cap)]
     out.extend(near)
+    if isinstance(ast, str) and ast in grammar.DC_SPECS:
+        out.extend(refmodel.dc_near(grammar.DC_SPECS[ast]))
     out.extend(values.POOL)
     out.append(grammar.SubStr('xy'))
     out = values.dedupe(out)
